@@ -52,6 +52,7 @@ type result struct {
 	Reached     bool    `json:"reached"` // the cancellation point was reached before the program ended
 	AtRoot      bool    `json:"at_root"` // ... and that operation ran on the global frame
 	TicksBefore int     `json:"ticks_before"`
+	MainStarted bool    `json:"main_started"`
 	Blocked     bool    `json:"blocked"` // cancelled when every goroutine was blocked (k beyond the last operation)
 	OpsBefore   int64   `json:"ops_before"`
 	Goroutines  int     `json:"goroutines"` // interpreted goroutines seen
